@@ -1,4 +1,6 @@
 import SamVerif.Lemmas.LexerValid
+import SamVerif.Lemmas.LexerErr
+import SamVerif.Lemmas.ParserLoops
 /-!
 # C05 — Any input text yields a result or diagnostics, never a crash or a hang
 
@@ -125,4 +127,71 @@ example : (tokenize [47, 42, 32, 195, 169, 32, 42, 47, 32, 120]).fin = .ok :=
                   | apply Valid.two _ _ _ (by decide) (by decide) (by decide)))
 example : (tokenize [47, 42, 42, 47]).toks.map (·.kind) = [.block] := by decide
 
+/-! ## syntax_error_reported: error tokens and out-of-range integers always leave a diagnostic
+
+(DESIGN's `syntax_error_iff`; only this direction is what C05 asks: "a syntax error is always
+reported".)  Since fix d5c9a21 the integer rule has no exception besides the `-2147483648` merge, so
+the statement is full strength. -/
+
+/-- **syntax_error_reported** (full strength): for every text, every `error` token the producer
+yields has its "Invalid token." entry, and every integer token it yields whose value is ≥ 2³¹ — i.e.
+every out-of-range literal; the merged `-2147483648` is the only in-range token spelled with a minus —
+has its "Not a 32-bit integer." entry in the error set. -/
+theorem syntax_error_reported (doc : Bytes) :
+    (∀ t ∈ (tokenize doc).toks, t.kind = .error →
+      (⟨t.start, t.stop, .tok⟩ : Err) ∈ (tokenize doc).errs) ∧
+    (∀ t ∈ (tokenize doc).toks, t.kind = .int → t.text.head? ≠ some 45 →
+      twoPow31 ≤ digitsVal t.text 0 → (⟨t.start, t.stop, .int⟩ : Err) ∈ (tokenize doc).errs) := by
+  have hraw := rawLoop_error_reported (doc.length + 1) doc ⟨0, 0⟩
+  have hfold := foldl_processRaw_inv (rawTokens doc).toks ⟨none, [], []⟩ []
+    (by simp [PState.all]) (by simp [PState.all])
+  simp only [List.append_nil] at hfold
+  obtain ⟨hint, herr⟩ := hfold
+  have hsub : ∀ t ∈ (tokenize doc).toks,
+      t ∈ ((rawTokens doc).toks.foldl processRaw ⟨none, [], []⟩).all := by
+    intro t ht
+    simp only [tokenize, produce] at ht
+    simp only [PState.all, List.mem_append]
+    generalize (rawTokens doc).toks.foldl processRaw ⟨none, [], []⟩ = st at *
+    split at ht
+    · rename_i p _ hp
+      simp only [List.mem_append, List.mem_singleton] at ht
+      rcases ht with h | rfl
+      · exact Or.inl h
+      · exact Or.inr (by simp [hp])
+    · exact Or.inl ht
+  constructor
+  · intro t ht hk
+    have hmem := herr t (hsub t ht) hk
+    simp only [tokenize, produce, List.mem_append]
+    exact Or.inl (hraw t hmem hk)
+  · intro t ht hk hh hv
+    simp only [tokenize, produce, List.mem_append]
+    exact Or.inr (hint t (hsub t ht) hk hh hv)
+
+example : (tokenize [40, 50, 49, 52, 55, 52, 56, 51, 54, 52, 56]).errs.length = 1 := by decide  -- `(2147483648`
+example : (tokenize [45, 50, 49, 52, 55, 52, 56, 51, 54, 52, 56]).errs = [] := by decide       -- `-2147483648`
+example : (tokenize [38, 120]).errs.map (·.code) = [.tok] := by decide                          -- `&x`
+
 end SamVerif.Lexer
+
+namespace SamVerif.ParserLoops
+
+/-! ## parser_loops_progress: the recovery loops cannot spin
+
+Three loop skeletons (`Model/ParserLoops.lean`); whether each recovery arm consumes its token is read
+from the source on every run (`Generated/ParserLoops.lean`). -/
+
+/-- **parser_loops_progress** (full strength, for every token list and every sub-parser that never
+un-reads): the top-level recovery loop, the comma-separated-list loop and the block statement loop
+each leave within `len + 1` iterations — every iteration consumes a token or exits, also at EOF. -/
+theorem parser_loops_progress (sub : List TK → List TK) (hs : NoUnread sub) (ts : List TK) :
+    toplevelLoop sub (ts.length + 1) ts ≠ none ∧ commaLoop sub (ts.length + 1) ts ≠ none ∧
+      blockLoop sub (ts.length + 1) ts ≠ none :=
+  ⟨toplevelLoop_progress sub hs _ ts (by omega), commaLoop_progress sub hs _ ts (by omega),
+   blockLoop_progress sub hs _ ts (by omega)⟩
+
+-- non-vacuity: `{ ) ) }`-like input: an expression parser that consumes nothing still terminates
+example : blockLoop id 5 [.other, .other, .rbrace, .cls] = some [.cls] := by decide
+
+end SamVerif.ParserLoops
